@@ -2,6 +2,7 @@ package rules
 
 import (
 	"go/ast"
+	"go/constant"
 	"go/token"
 	"go/types"
 	"sort"
@@ -440,6 +441,28 @@ func c11(c *Ctx) {
 				for _, f := range pg.FactsAt(v.ID) {
 					if fc, ok := ast.Unparen(f.Expr).(*ast.CallExpr); ok && f.Tag == nil && f.Val {
 						if fn := astx.Callee(pi, fc); fn != nil && fname(fn) == "OriginWhitelisted" {
+							okW = true
+						}
+					}
+					// … or a flag every definition of which is that call or the constant false (the decision taken by a helper)
+					if id, ok := ast.Unparen(f.Expr).(*ast.Ident); ok && f.Tag == nil && f.Val {
+						nCall, other := 0, false
+						for _, d := range defsOf(pi, pub.Node(), astx.Obj(pi, id)) {
+							if d == nil {
+								continue
+							}
+							if tv, isC := pi.Types[d]; isC && tv.Value != nil && tv.Value.Kind() == constant.Bool && !constant.BoolVal(tv.Value) {
+								continue
+							}
+							if dc, isCall := ast.Unparen(d).(*ast.CallExpr); isCall {
+								if fn := astx.Callee(pi, dc); fn != nil && fname(fn) == "OriginWhitelisted" {
+									nCall++
+									continue
+								}
+							}
+							other = true
+						}
+						if nCall > 0 && !other {
 							okW = true
 						}
 					}
